@@ -309,6 +309,10 @@ class AbstractDateTime(AnyAtomicType):
             case YearMonthDuration():
                 month = op(self._dt.month - 1, other.months) % 12 + 1
                 year = self._year + op(self._dt.month - 1, other.months) // 12
+                if self._year < 0 <= year:
+                    year += 1  # there is no year zero: 1 BCE (-1) is followed by 1 CE
+                elif year <= 0 < self._year:
+                    year -= 1
                 day = adjust_day(year, month, self._dt.day)
 
                 if year > datetime.MAXYEAR:
